@@ -6,6 +6,7 @@ import (
 	"math/rand"
 	"strings"
 	"sync"
+	"sync/atomic"
 	"time"
 
 	"verif/sim"
@@ -31,7 +32,7 @@ type batchCase struct {
 	Queue     int
 	Flush     time.Duration
 	Calls     []batchCall
-	Invalid   string // "" | mixed-tables | duplicate | non-batchable
+	Invalid   string // "" | mixed-tables | mixed-namespaces | duplicate | non-batchable
 	InvalidAt int
 	// Trigger: "" | drop-table-on-nsre | cancel-before | cancel-waiting | cancel-backoff |
 	// own-ctx-reply-held (the last call has a context of its own, cancelled while the
@@ -65,7 +66,8 @@ func (b batchCase) matrix() string {
 // stays usable, other actions of the same multi-request are answered normally.
 // "rfatal" fails the whole region action the call travels in with a
 // non-retryable region-level exception (its siblings of that region share it).
-var batchOutcomes = []string{"ok", "ok", "fatal", "retry", "nsre", "dead-before", "dead-after", "abort", "rfatal"}
+// "omit": the multi-response leaves the action out (not executed, not answered).
+var batchOutcomes = []string{"ok", "ok", "fatal", "retry", "nsre", "dead-before", "dead-after", "abort", "rfatal", "omit"}
 
 func genBatchCase(r *rand.Rand, maxCalls int) batchCase {
 	b := batchCase{Seed: r.Int63(), Servers: 1 + r.Intn(3), Queue: []int{1, 2, 5, 100}[r.Intn(4)],
@@ -98,9 +100,9 @@ func genBatchCase(r *rand.Rand, maxCalls int) batchCase {
 		}
 		b.Calls = append(b.Calls, c)
 	}
-	switch r.Intn(15) {
+	switch r.Intn(16) {
 	case 0:
-		b.Invalid = "mixed-tables"
+		b.Invalid = []string{"mixed-tables", "mixed-namespaces"}[r.Intn(2)]
 	case 1:
 		b.Invalid = "duplicate"
 	case 2:
@@ -151,6 +153,21 @@ func genBatchCase(r *rand.Rand, maxCalls int) batchCase {
 			}
 		}
 		b.Calls = append(b.Calls, batchCall{Kind: "put", Row: "x1"})
+	case 11:
+		b.Trigger = "own-ctx-retry-round-lookup"
+		b.Servers, b.Bounds, b.Queue = 2, []string{"m"}, 100
+		n := 3 + r.Intn(5)
+		b.Calls = nil
+		for i := 0; i < n; i++ {
+			// the middle call is the only one for the second region (and server):
+			// grouping the retry round by server moves it to one end of the list
+			row := "a" + fmt.Sprint(i)
+			if i == n/2 {
+				row = "x" + fmt.Sprint(i)
+			}
+			b.Calls = append(b.Calls, batchCall{Kind: []string{"put", "get"}[r.Intn(2)], Row: row, Script: []string{"retry"}})
+		}
+		b.Calls[n/2].Script = []string{"nsre"}
 	}
 	if b.Invalid != "" {
 		b.InvalidAt = r.Intn(len(b.Calls) + 1)
@@ -208,10 +225,12 @@ func runBatchCase(b batchCase, tag string) *batchRun {
 	}
 	cl.CreateTable("t", bounds, nil)
 	cl.CreateTable("other", nil, nil)
+	cl.CreateTable("ns:t", nil, nil) // same qualifier as "t", another namespace
 	cl.EchoResults = true
 	cl.PermuteMulti = b.Seed%2 == 0
 	run := &batchRun{Case: b, Attempts: map[string][]*batchAttempt{}, Cluster: cl, OwnCtx: -1}
 	var cancelOwnCtx func()
+	var holdMeta int32
 	var ownOnce sync.Once
 	ownOp := ""
 	switch b.Trigger {
@@ -285,6 +304,10 @@ func runBatchCase(b batchCase, tag string) *batchRun {
 			}
 		}
 		mu.Unlock()
+		if !relevant && b.Trigger == "own-ctx-retry-round-lookup" && atomic.LoadInt32(&holdMeta) == 1 &&
+			req.Scan != nil && string(req.Scan.GetRegion().GetValue()) == string(sim.MetaRegionName) {
+			return &sim.Reply{HoldDefault: hold}
+		}
 		if !relevant {
 			if b.Trigger == "own-ctx-while-locating" && req.Scan != nil && req.Scan.Scan != nil &&
 				strings.Contains(string(req.Scan.Scan.StartRow), ",x1,") {
@@ -379,9 +402,19 @@ func runBatchCase(b batchCase, tag string) *batchRun {
 			return &sim.Exc{Class: sim.ExcTooBusy}
 		case "abort":
 			return &sim.Exc{Class: sim.ExcAborted}
+		case "omit":
+			if req.Multi != nil {
+				return &sim.Exc{Class: "omitted", Omit: true}
+			}
+			return &sim.Exc{Class: sim.ExcTooBusy} // (a single request cannot be left out of its own response)
 		case "nsre":
 			if doDrop {
 				cl.DropTable("t")
+			}
+			if b.Trigger == "own-ctx-retry-round-lookup" && a.OpID == ownOp && atomic.CompareAndSwapInt32(&holdMeta, 0, 1) {
+				// its region is looked up again in the retry round: that lookup is
+				// not answered, and the call gives up meanwhile
+				go func() { time.Sleep(8 * time.Millisecond); cancelOwnCtx() }()
 			}
 			return &sim.Exc{Class: sim.ExcNSRE}
 		}
@@ -394,6 +427,9 @@ func runBatchCase(b batchCase, tag string) *batchRun {
 	ownIdx := -1
 	if strings.HasPrefix(b.Trigger, "own-ctx") {
 		ownIdx = len(b.Calls) - 1
+		if b.Trigger == "own-ctx-retry-round-lookup" {
+			ownIdx = len(b.Calls) / 2
+		}
 		if b.Trigger == "own-ctx-reply-held" && b.Seed%2 == 0 {
 			// the call that gives up is the first of the multi-request: SendBatch
 			// sees its context end before the (held) reply arrives; the reply must
@@ -443,8 +479,8 @@ func runBatchCase(b batchCase, tag string) *batchRun {
 	}
 	cancelOwnCtx = cancelOwn
 	switch b.Invalid {
-	case "mixed-tables":
-		call, opid := mk(1000, batchCall{Kind: "put", Row: "zz"}, "other")
+	case "mixed-tables", "mixed-namespaces":
+		call, opid := mk(1000, batchCall{Kind: "put", Row: "zz"}, map[string]string{"mixed-tables": "other", "mixed-namespaces": "ns:t"}[b.Invalid])
 		scripts[opid] = nil
 		run.insert(b.InvalidAt, call, opid)
 	case "duplicate":
@@ -533,7 +569,7 @@ func (r *batchRun) actual(a *batchAttempt) string {
 func enumBatchCases() []batchCase {
 	rows := []string{"a1", "z1", "b2", "y2"}
 	kinds := []string{"put", "get", "increment", "append"}
-	outcomes := []string{"fatal", "retry", "nsre", "dead-before", "dead-after", "abort", "rfatal"}
+	outcomes := []string{"fatal", "retry", "nsre", "dead-before", "dead-after", "abort", "rfatal", "omit"}
 	seconds := []string{"", "ok", "fatal", "retry", "nsre", "dead-before", "dead-after", "abort", "rfatal"}
 	var out []batchCase
 	seed := int64(1)
